@@ -24,7 +24,8 @@ cfg = {
   "leave":  [k_a ...]          agent a leaves at step k_a (flagged done there, absent from every
                                dict afterwards) when 0 < k_a < episode length; 0 = stays,
   "obs":    [ {"kind": "vector"|"image"|"dict"|"tuple", "parts": [[key, shape, dtype], ...]} per agent ],
-  "act":    [0 | k ...]        per agent: 0 = Discrete(5), k > 0 = Box(-1, 1, (k,), float32),
+  "act":    [0 | k | -1 ...]   per agent: 0 = Discrete(5), k > 0 = Box(-1, 1, (k,), float32),
+                               -1 = Box(-1, 1, (), float32) (a scalar continuous action),
   "rev_dicts": bool            build the truncation / reward dicts in reversed agent order
                                (dict order is not part of the PettingZoo API),
 }
@@ -110,7 +111,8 @@ class ScriptedParallelEnv(ParallelEnv):
         self.rev = bool(cfg.get("rev_dicts", False))
         self._obs_spaces = {ag: agent_space(s) for ag, s in zip(self.possible_agents, cfg["obs"])}
         self._act_spaces = {
-            ag: (spaces.Discrete(N_DISCRETE) if k == 0 else spaces.Box(-1.0, 1.0, (int(k),), np.float32))
+            ag: (spaces.Discrete(N_DISCRETE) if k == 0
+                 else spaces.Box(-1.0, 1.0, (int(k),) if k > 0 else (), np.float32))
             for ag, k in zip(self.possible_agents, cfg["act"])
         }
         self.episode = 0
